@@ -2,6 +2,7 @@
   C05 — cut commits the clause and nothing else.
 -/
 import Yld.Model.Api
+import Yld.Proofs.Program
 namespace Yld.C05
 
 /-- The caller's alternatives are untouched: whatever happens inside a predicate, the signal
@@ -52,6 +53,20 @@ theorem comp_cut_last (n : Nat) : comp .cut [] n = ([.yieldT, .ret], n) := by
   simp [comp]
 theorem comp_cut_then (b : Body) (ks : List Body) (n : Nat) :
     comp .cut (b :: ks) n = ((comp b ks n).1 ++ [.ret], (comp b ks n).2) := by
+  simp [comp]
+
+/-- The laws above are about the reference semantics; they hold of the generated code because
+    the generated code of every body has the reference semantics (Theorem A) — cuts as first,
+    middle or last goal, inside `;` branches and then/else branches included. -/
+theorem cut_laws_transfer_to_compiled_code (q : Q) (hq : Parametric q) (env : Env) (b : Body) (hb : Src b) (n : Nat)
+    (k : K) (hk : External k) (w : World) :
+    execList q env (comp b [] n).1 k w = solve q env 0 b k w :=
+  compile_body_correct q hq env b hb n k hk w
+
+/-- In particular `A, !, B` as compiled: the loop for A is left by `return` after B's code. -/
+example (q : Q) (env : Env) (n : Nat) :
+    (comp (.conj (.call "a" []) (.conj .cut (.call "b" []))) [] n).1
+      = [.foreach "a" [] [.foreach "b" [] [.yieldF], .ret]] := by
   simp [comp]
 
 end Yld.C05
